@@ -42,7 +42,7 @@ def run_programs(chk, n):
         features(chk, p, g)
     reps = rc.batch(progs)
     for p, (rep, sp) in zip(progs, reps):
-        real = tplgen.run_real(p, limit=3.0)
+        real = tplgen.run_real(p, limit=20.0)
         chk.count("programs", 1, validated=1)
         chk.errkind(real["err"] or "ok")
         chk.nontrivial(real["out"] or real["err"])
@@ -71,8 +71,8 @@ def run_variants(chk, n):
     dyn = [to_dynamic(p) for p in progs]
     reps = rc.batch(dyn, with_spec=False)
     for p, d, (rep, _) in zip(progs, dyn, reps):
-        plain = tplgen.run_real(p, limit=3.0)
-        dreal = tplgen.run_real(d, limit=3.0)
+        plain = tplgen.run_real(p, limit=20.0)
+        dreal = tplgen.run_real(d, limit=20.0)
         chk.count("variants/dynamic", 1, validated=1)
         same = (plain["err"] == dreal["err"]) and (
             plain["out"] is None or tplgen.canon_real(plain["out"], plain["hash2name"]) ==
@@ -108,8 +108,8 @@ def run_variants(chk, n):
                                         "kwargs": [[k, tplgen.lit(v["s"])] for k, v in kw]}]}, ctx=[])
         py = dict(p, entry={"comp": name, "kwargs": kw, "slots": slots}, ctx=[])
         (rep, sp), (rep2, sp2) = rc.batch([py, page])
-        a = tplgen.run_real(page, limit=3.0)
-        b = tplgen.run_real(py, limit=3.0)
+        a = tplgen.run_real(page, limit=20.0)
+        b = tplgen.run_real(py, limit=20.0)
         chk.count("variants/Component.render", 1, validated=2)
         same = (a["err"] == b["err"]) and (a["out"] is None or tplgen.canon_real(a["out"], a["hash2name"]) ==
                                            tplgen.canon_real(b["out"], b["hash2name"]))
